@@ -43,7 +43,13 @@ Section Total.
       + destruct (span is_ascii_letter (ch :: rest)) as [wd rest'] eqn:E.
         pose proof (span_consumes _ _ _ _ _ Hl E) as Hc.
         apply bind_no_panic; [apply IH; lia|]. intros a _ w; discriminate.
-      + destruct (ch =? 40)%N.
+      + destruct (ch =? 960)%N.
+        { apply bind_no_panic; [apply IH; lia|]. intros a _ w; discriminate. }
+        destruct (ch =? 964)%N.
+        { apply bind_no_panic; [apply IH; lia|]. intros a _ w; discriminate. }
+        destruct (ch =? 981)%N.
+        { apply bind_no_panic; [apply IH; lia|]. intros a _ w; discriminate. }
+        destruct (ch =? 40)%N.
         { apply bind_no_panic; [apply IH; lia|]. intros a _ w; discriminate. }
         destruct (ch =? 41)%N.
         { apply bind_no_panic; [apply IH; lia|]. intros a _ w; discriminate. }
@@ -77,7 +83,7 @@ Section Total.
   Qed.
 
   (* the first part of parse_expr (atom, parenthesis, function, prefix minus) *)
-  Definition prefix_part (f : nat) (ts : list tok) : res (tree * list tok) :=
+  Definition prefix_part (f : nat) (ts : list tok) (min_bp : nat) : res (tree * list tok) :=
     match ts with
     | TNum x :: r => Ok (ENum x, r)
     | TVar v :: r => Ok (EVar v, r)
@@ -92,38 +98,46 @@ Section Total.
     | TRParen :: _ => Err EUnexpectedToken
     | TFun fn :: r =>
       match r with
-      | TLParen :: _ => let* (inner, r1) := parse_expr f r BP_FUNCTION_ARG in Ok (EFun fn inner, r1)
+      | TLParen :: r' =>
+        let* (inner, r1) := parse_expr f r' 0 in
+        match r1 with
+        | TRParen :: r2 => Ok (EFun fn inner, r2)
+        | _ :: _ => Err EUnexpectedToken
+        | [] => Err EUnexpectedEndOfTokens
+        end
       | _ :: _ => Err EUnexpectedToken
       | [] => Err EUnexpectedEndOfTokens
       end
     | TOp op :: r =>
       if oper_eqb op OSub
-      then let* (v, r1) := parse_expr f r BP_PREFIX_MINUS in Ok (EPre op v, r1)
+      then let* (v, r1) := parse_expr f r (Nat.max min_bp BP_PREFIX_MINUS) in Ok (EPre op v, r1)
       else Err EUnexpectedToken
     | [] => Err EPolynomialSyntaxError
     end.
 
   Lemma parse_expr_unfold f ts bp :
     parse_expr (S f) ts bp =
-    (let* (l, r) := prefix_part f ts in
+    (let* (l, r) := prefix_part f ts bp in
      let (l', r') := strip_fac l r in
      bin_loop (parse_expr f) f l' r' bp).
   Proof. reflexivity. Qed.
 
   Lemma prefix_part_length f :
     consuming (parse_expr f) ->
-    forall ts e r, prefix_part f ts = Ok (e, r) -> length r < length ts.
+    forall ts bp e r, prefix_part f ts bp = Ok (e, r) -> length r < length ts.
   Proof.
-    intros Hrec ts e r H. unfold prefix_part in H.
+    intros Hrec ts bp e r H. unfold prefix_part in H.
     destruct ts as [|t ts']; [discriminate|].
     destruct t as [x|v|op|fn|c| |]; try (injection H as <- <-; cbn; lia); try discriminate.
     - destruct (oper_eqb op OSub); [|discriminate].
-      destruct (parse_expr f ts' BP_PREFIX_MINUS) as [[v r1]|e0|w] eqn:E; cbn [bind] in H; try discriminate.
+      destruct (parse_expr f ts' (Nat.max bp BP_PREFIX_MINUS)) as [[v r1]|e0|w] eqn:E; cbn [bind] in H; try discriminate.
       injection H as <- <-. apply Hrec in E. cbn; lia.
     - destruct ts' as [|t2 ts2]; [discriminate|].
       destruct t2; try discriminate.
-      destruct (parse_expr f (TLParen :: ts2) BP_FUNCTION_ARG) as [[v r1]|e0|w] eqn:E; cbn [bind] in H; try discriminate.
-      injection H as <- <-. apply Hrec in E. cbn in *; lia.
+      destruct (parse_expr f ts2 0) as [[v r1]|e0|w] eqn:E; cbn [bind] in H; try discriminate.
+      apply Hrec in E.
+      destruct r1 as [|t1 r2]; [discriminate|]. destruct t1; try discriminate.
+      injection H as <- <-. cbn in *; lia.
     - destruct (parse_expr f ts' 0) as [[v r1]|e0|w] eqn:E; cbn [bind] in H; try discriminate.
       apply Hrec in E.
       destruct r1 as [|t1 r2]; [discriminate|]. destruct t1; try discriminate.
@@ -134,7 +148,7 @@ Section Total.
   Proof.
     induction f as [|f IH]; intros ts bp e r H; [discriminate|].
     rewrite parse_expr_unfold in H.
-    destruct (prefix_part f ts) as [[l r0]|e0|w] eqn:E; cbn [bind] in H; try discriminate.
+    destruct (prefix_part f ts bp) as [[l r0]|e0|w] eqn:E; cbn [bind] in H; try discriminate.
     apply (prefix_part_length f IH) in E.
     pose proof (strip_fac_length r0 l) as Hs.
     destruct (strip_fac l r0) as [l' r'] eqn:E2. cbn [snd] in Hs.
@@ -167,7 +181,9 @@ Section Total.
         apply bind_no_panic; [apply IH; lia|]. intros [a b] _ w; discriminate.
       + destruct ts' as [|t2 ts2]; [intros w; discriminate|].
         destruct t2; try (intros w; discriminate).
-        apply bind_no_panic; [apply IH; cbn [length] in *; lia|]. intros [a b] _ w; discriminate.
+        apply bind_no_panic; [apply IH; cbn [length] in *; lia|].
+        intros [a b] _. destruct b as [|t1 b']; [intros w; discriminate|].
+        destruct t1; intros w; discriminate.
       + apply bind_no_panic; [apply IH; lia|].
         intros [a b] _. destruct b as [|t1 b']; [intros w; discriminate|].
         destruct t1; intros w; discriminate.
@@ -189,6 +205,9 @@ Section Total.
   Qed.
 
   (* ---- fold --------------------------------------------------------------------- *)
+  Lemma height_keep_paren (e : tree) p : height (keep_paren e p) = height e.
+  Proof. destruct e; reflexivity. Qed.
+
   Lemma fold_fuel_ok : forall n (e : tree), height e < n ->
     exists e', fold_fuel n e = Ok e' /\ height e' <= height e.
   Proof.
@@ -202,10 +221,10 @@ Section Total.
     { eexists; split; [reflexivity|cbn [height]; lia]. }
     assert (Hnum : forall x : T, exists e', Ok (ENum x) = Ok e' /\ height e' <= S (Nat.max (height l) (height r))).
     { intros x; eexists; split; [reflexivity|cbn [height]; lia]. }
-    assert (Hl' : exists e', Ok l' = Ok e' /\ height e' <= S (Nat.max (height l) (height r))).
-    { eexists; split; [reflexivity|lia]. }
-    assert (Hr' : exists e', Ok r' = Ok e' /\ height e' <= S (Nat.max (height l) (height r))).
-    { eexists; split; [reflexivity|lia]. }
+    assert (Hl' : exists e', Ok (keep_paren l' p) = Ok e' /\ height e' <= S (Nat.max (height l) (height r))).
+    { eexists; split; [reflexivity|rewrite height_keep_paren; lia]. }
+    assert (Hr' : exists e', Ok (keep_paren r' p) = Ok e' /\ height e' <= S (Nat.max (height l) (height r))).
+    { eexists; split; [reflexivity|rewrite height_keep_paren; lia]. }
     destruct op; try exact Hkeep.
     - (* Add *) destruct (is_num n0 l'); [exact Hr'|]. destruct (is_num n0 r'); [exact Hl'|exact Hkeep].
     - (* Sub *) destruct (is_num n0 r'); [exact Hl'|]. destruct (is_num n0 l'); [|exact Hkeep].
@@ -213,7 +232,7 @@ Section Total.
       rewrite Er'. cbn [bind]. eexists; split; [reflexivity|cbn [height]; lia].
     - (* Div *) destruct (is_num n1 r'); [exact Hl'|exact Hkeep].
     - (* Mul *) destruct (is_num n0 l'); [apply Hnum|]. destruct (is_num n0 r'); [apply Hnum|exact Hkeep].
-    - (* Caret *) destruct (is_num n0 r'); [apply Hnum|]. destruct (is_num n0 l'); [apply Hnum|exact Hkeep].
+    - (* Caret *) destruct (is_num n0 r'); [apply Hnum|]. destruct (is_num n0 l' && is_number r'); [apply Hnum|exact Hkeep].
   Qed.
 
   Lemma fold_operations_ok (e : tree) : exists e', fold_operations e = Ok e'.
